@@ -1,6 +1,7 @@
 package rules
 
 import (
+	"sort"
 	"fmt"
 	"go/types"
 	"strings"
@@ -60,6 +61,8 @@ type bootstrapSubject struct {
 	register *ssa.Function   // appends a post-processor to the registration list
 	recv     *types.Named    // the delegate type
 	dispatch string          // name of the field the dispatch loops range over
+	owner    *types.Named    // the type that field belongs to: the delegate, or a state object it is layered on
+	state    []*types.Named  // the delegate type and the unexported struct types of its package it keeps its state in
 	parallel []*ssa.Function // in-package callees that start goroutines (opaque events here; decided by C20)
 }
 
@@ -76,16 +79,48 @@ func findBootstrap(c *core.Ctx) (*bootstrapSubject, string) {
 		return nil, fmt.Sprintf("found %d smallest functions of container/factory that sort post-processors and create them through the factory, expected 1", len(subs))
 	}
 	s := &bootstrapSubject{fn: subs[0]}
+	// a bootstrap whose steps are methods of a run-context object (made when the call starts, dropped when it returns):
+	// the routine is the method of the long-lived delegate that makes the context and runs it
+	s.fn = liftToShape(c, s.fn, func(sig *types.Signature) bool {
+		return sig.Recv() != nil && !transientType(c, core.NamedOf(sig.Recv().Type()), 0)
+	})
 	if s.fn.Signature.Recv() == nil {
 		return nil, "the bootstrap routine is not a method"
 	}
 	s.recv = core.NamedOf(s.fn.Signature.Recv().Type())
+	s.state = stateTypes(s.recv)
+	inState := func(n *types.Named) bool {
+		for _, x := range s.state {
+			if x == n {
+				return true
+			}
+		}
+		return false
+	}
 	// helpers of the bootstrap (not registration functions)
 	helpers := map[*ssa.Function]bool{}
 	reachesCall(s.fn, func(*ssa.CallCommon) bool { return false }, helpers)
 	// the parallel definition scan: the functions of the package that start goroutines and dispatch definition
 	// registry post-processors (a helper of the bootstrap or a sibling stage of it)
 	seenPar := map[*ssa.Function]bool{}
+	// ... as a whole: the smallest function that reaches both the list of definition scanners and their calls
+	if getScanners := c.IfaceMethod("container", "Factory", "GetDefinitionRegistryPostProcessors"); getScanners != nil && ro.DRPPPostProcess != nil {
+		whole := lowestReaching(c, "container/factory",
+			func(com *ssa.CallCommon) bool { return core.IsInvoke(com, getScanners) },
+			func(com *ssa.CallCommon) bool { return core.IsInvoke(com, ro.DRPPPostProcess) })
+		if len(whole) == 1 && whole[0] != s.fn && core.PkgOf(whole[0]) == core.PkgOf(s.fn) {
+			parts := map[*ssa.Function]bool{}
+			reachesCall(whole[0], func(*ssa.CallCommon) bool { return false }, parts)
+			for f := range parts {
+				if containsGo(f) || startsGoroutines(c, f) {
+					seenPar[whole[0]] = true
+				}
+			}
+			if seenPar[whole[0]] {
+				s.parallel = append(s.parallel, whole[0])
+			}
+		}
+	}
 	for _, site := range c.CallSites(func(com *ssa.CallCommon) bool { return core.IsInvoke(com, ro.DRPPPostProcess) }) {
 		h := core.TopLevel(site.Parent())
 		for depth := 0; depth < 3 && h != nil && !startsGoroutines(c, h); depth++ {
@@ -96,6 +131,13 @@ func findBootstrap(c *core.Ctx) (*bootstrapSubject, string) {
 			}
 			h = core.TopLevel(callers[0])
 		}
+		if len(s.parallel) > 0 && seenPar[s.parallel[0]] {
+			reached := map[*ssa.Function]bool{}
+			reachesCall(s.parallel[0], func(*ssa.CallCommon) bool { return false }, reached)
+			if reached[h] || reached[core.TopLevel(site.Parent())] {
+				continue // a part of the scan routine found above
+			}
+		}
 		if h != nil && h != s.fn && core.PkgOf(h) == core.PkgOf(s.fn) && startsGoroutines(c, h) && !seenPar[h] {
 			seenPar[h] = true
 			s.parallel = append(s.parallel, h)
@@ -104,7 +146,7 @@ func findBootstrap(c *core.Ctx) (*bootstrapSubject, string) {
 	// the registration function: another method of the same type that appends to a []ComponentPostProcessor field
 	var regs []*ssa.Function
 	for _, fn := range c.Scope {
-		if helpers[fn] || fn.Signature.Recv() == nil || core.NamedOf(fn.Signature.Recv().Type()) != s.recv || fn.Parent() != nil {
+		if helpers[fn] || fn.Signature.Recv() == nil || !inState(core.NamedOf(fn.Signature.Recv().Type())) || fn.Parent() != nil {
 			continue
 		}
 		for _, b := range fn.Blocks {
@@ -136,6 +178,19 @@ func findBootstrap(c *core.Ctx) (*bootstrapSubject, string) {
 		return nil, fmt.Sprintf("found %d registration methods appending to a []ComponentPostProcessor field of %s, expected 1", len(regs), s.recv.Obj().Name())
 	}
 	s.register = regs[0]
+	// a registration kept by a state object: the delegate's own method that hands the processor to it
+	for i := 0; i < 3 && core.NamedOf(s.register.Signature.Recv().Type()) != s.recv; i++ {
+		var ups []*ssa.Function
+		for _, cl := range c.Callers(s.register) {
+			if t := core.TopLevel(cl); !containsFn(ups, t) {
+				ups = append(ups, t)
+			}
+		}
+		if len(ups) != 1 || ups[0].Signature.Recv() == nil || !inState(core.NamedOf(ups[0].Signature.Recv().Type())) || helpers[ups[0]] {
+			return nil, fmt.Sprintf("the registration method %s of the delegate's state is not reached from exactly one method of %s", core.FnName(s.register), s.recv.Obj().Name())
+		}
+		s.register = ups[0]
+	}
 	// the dispatch field: the []ComponentPostProcessor field read by the function that invokes PostProcessBeforeInitialization
 	for _, site := range c.CallSites(func(com *ssa.CallCommon) bool { return core.IsInvoke(com, ro.CPBeforeInit) }) {
 		// ... or by its callers, when the dispatching function is handed the list (a walker recursing on the rest)
@@ -144,7 +199,7 @@ func findBootstrap(c *core.Ctx) (*bootstrapSubject, string) {
 		for depth := 0; depth < 3 && s.dispatch == "" && len(level) > 0; depth++ {
 			var next []*ssa.Function
 			for _, fn := range level {
-				if seen[fn] || fn.Signature.Recv() == nil || core.NamedOf(fn.Signature.Recv().Type()) != s.recv {
+				if seen[fn] || fn.Signature.Recv() == nil || !inState(core.NamedOf(fn.Signature.Recv().Type())) {
 					continue
 				}
 				seen[fn] = true
@@ -152,9 +207,9 @@ func findBootstrap(c *core.Ctx) (*bootstrapSubject, string) {
 					for _, b := range g.Blocks {
 						for _, in := range b.Instrs {
 							if fa, ok := in.(*ssa.FieldAddr); ok {
-								if fr, ok := core.FieldOfAddr(fa); ok && fr.Owner == s.recv {
+								if fr, ok := core.FieldOfAddr(fa); ok && inState(fr.Owner) {
 									if sl, ok := fa.Type().Underlying().(*types.Pointer).Elem().Underlying().(*types.Slice); ok && types.Identical(sl.Elem(), cpp) {
-										s.dispatch = fr.Name
+										s.dispatch, s.owner = fr.Name, fr.Owner
 									}
 								}
 							}
@@ -163,6 +218,18 @@ func findBootstrap(c *core.Ctx) (*bootstrapSubject, string) {
 				}
 				for _, cl := range c.Callers(fn) {
 					next = append(next, core.TopLevel(cl))
+				}
+				// ... or by a walker the dispatching function hands its per-processor step to
+				for _, g := range core.WithAnon(fn) {
+					for _, ci := range core.Calls(g) {
+						if cal := ci.Common().StaticCallee(); cal != nil && c.InScope(cal) && cal.Signature.Recv() != nil && !seen[cal] {
+							for _, a := range ci.Common().Args {
+								if lit := core.ClosureOf(a); lit != nil && core.TopLevel(lit) == fn {
+									next = append(next, cal)
+								}
+							}
+						}
+					}
 				}
 			}
 			level = next
@@ -254,12 +321,12 @@ func derivedDispatchLists(c *core.Ctx) map[string]types.Type {
 	if bs == nil {
 		return out
 	}
-	st := core.StructOf(bs.recv)
+	st := core.StructOf(bs.owner)
 	if st == nil {
 		return out
 	}
 	// the appends to the dispatch list: store -> appended value
-	dStores, _ := c.FieldAccesses(bs.recv, bs.dispatch)
+	dStores, _ := c.FieldAccesses(bs.owner, bs.dispatch)
 	type dApp struct {
 		st *ssa.Store
 		v  ssa.Value
@@ -271,7 +338,7 @@ func derivedDispatchLists(c *core.Ctx) map[string]types.Type {
 			return out // the dispatch list is also assigned as a whole: no index is recognised
 		}
 		el := appendedElems(call)
-		if _, isLoad := core.IsFieldLoad(core.Norm(call.Common().Args[0]), bs.recv, bs.dispatch); !isLoad || len(el) != 1 {
+		if _, isLoad := core.IsFieldLoad(core.Norm(call.Common().Args[0]), bs.owner, bs.dispatch); !isLoad || len(el) != 1 {
 			return out
 		}
 		dApps = append(dApps, dApp{a.Store, core.Norm(el[0])})
@@ -282,7 +349,7 @@ func derivedDispatchLists(c *core.Ctx) map[string]types.Type {
 		if !ok || !types.IsInterface(sl.Elem()) || f.Name() == bs.dispatch {
 			continue
 		}
-		stores, others := c.FieldAccesses(bs.recv, f.Name())
+		stores, others := c.FieldAccesses(bs.owner, f.Name())
 		if len(stores) == 0 {
 			continue
 		}
@@ -301,7 +368,7 @@ func derivedDispatchLists(c *core.Ctx) map[string]types.Type {
 				break
 			}
 			el := appendedElems(call)
-			if _, isLoad := core.IsFieldLoad(core.Norm(call.Common().Args[0]), bs.recv, f.Name()); !isLoad || len(el) != 1 {
+			if _, isLoad := core.IsFieldLoad(core.Norm(call.Common().Args[0]), bs.owner, f.Name()); !isLoad || len(el) != 1 {
 				good = false
 				break
 			}
@@ -378,15 +445,7 @@ func bootstrapTable(c *core.Ctx, s *bootstrapSubject, maxLen int) (rs rows, runs
 				notCPP = map[string]bool{}
 				t := newTbl(c)
 				dlg = absint.NewTok("delegate", "delegate")
-				if st, ok := s.recv.Underlying().(*types.Struct); ok {
-					z := absint.New(nil)
-					for i := 0; i < st.NumFields(); i++ {
-						switch st.Field(i).Type().Underlying().(type) {
-						case *types.Slice, *types.Basic, *types.Map:
-							dlg.Fields[st.Field(i).Name()] = z.ZeroOf(st.Field(i).Type())
-						}
-					}
-				}
+				zeroState(dlg, s.recv, 0)
 				factory := absint.NewTok("factory", "factory")
 				t.typeTest = func(v absint.Value, T types.Type) (bool, bool) {
 					tok, ok := v.(*absint.Tok)
@@ -449,7 +508,7 @@ func bootstrapTable(c *core.Ctx, s *bootstrapSubject, maxLen int) (rs rows, runs
 				t.invoke[ro.FGetComponentByName] = func(ip *absint.Interp, a []absint.Value) absint.Value {
 					nm := absint.Show(a[1])
 					created = append(created, nm)
-					chainAt = append(chainAt, absint.Show(dlg.Fields[s.dispatch]))
+					chainAt = append(chainAt, absint.Show(stateGet(dlg, s.dispatch)))
 					if !ev("create("+nm+")", true, ip) {
 						return absint.Tuple{absint.Nil{}, t.newErr("create")}
 					}
@@ -517,7 +576,7 @@ func bootstrapTable(c *core.Ctx, s *bootstrapSubject, maxLen int) (rs rows, runs
 						cfg += fmt.Sprintf("P%d:eager ", i)
 					}
 				}
-				final := absint.Show(dlg.Fields[s.dispatch])
+				final := absint.Show(stateGet(dlg, s.dispatch))
 				w := fmt.Sprintf("registered [%s] trace=%v chain-at-creation=%v final dispatch list=%s => %s", strings.TrimSpace(cfg), trace, chainAt, final, showOutcome(out))
 				if out.Panic != nil {
 					rs.fail("error", "PANIC "+w)
@@ -548,7 +607,7 @@ func bootstrapTable(c *core.Ctx, s *bootstrapSubject, maxLen int) (rs rows, runs
 					return
 				}
 				// final chain
-				l, _ := dlg.Fields[s.dispatch].(*absint.List)
+				l, _ := stateGet(dlg, s.dispatch).(*absint.List)
 				rs.hit("chain-order")
 				okLen := l != nil && len(l.Elems) == n
 				var entries []string
@@ -623,4 +682,287 @@ func constructorOf(c *core.Ctx, T *types.Named) *ssa.Function {
 		found = fn
 	}
 	return found
+}
+
+// stateTypes: T and the unexported struct types of T's package that T holds (by value or by pointer, two levels): the
+// objects a type keeps its state in when that state has been moved out of the type itself.
+func stateTypes(T *types.Named) []*types.Named {
+	out := []*types.Named{T}
+	var add func(n *types.Named, depth int)
+	add = func(n *types.Named, depth int) {
+		st := core.StructOf(n)
+		if st == nil || depth >= 2 {
+			return
+		}
+		for i := 0; i < st.NumFields(); i++ {
+			ft := st.Field(i).Type()
+			if p, ok := ft.Underlying().(*types.Pointer); ok {
+				ft = p.Elem()
+			}
+			fn := core.NamedOf(ft)
+			if fn == nil || fn.Obj().Pkg() != T.Obj().Pkg() || fn.Obj().Exported() || core.StructOf(fn) == nil {
+				continue
+			}
+			dup := false
+			for _, x := range out {
+				dup = dup || x == fn
+			}
+			if !dup {
+				out = append(out, fn)
+				add(fn, depth+1)
+			}
+		}
+	}
+	add(T, 0)
+	return out
+}
+
+// zeroState gives the object the zero values of its slice, basic and map fields, and does the same for the state
+// objects it holds by value.
+func zeroState(obj *absint.Tok, T *types.Named, depth int) {
+	st := core.StructOf(T)
+	if st == nil {
+		return
+	}
+	z := absint.New(nil)
+	for i := 0; i < st.NumFields(); i++ {
+		f := st.Field(i)
+		switch f.Type().Underlying().(type) {
+		case *types.Slice, *types.Basic, *types.Map:
+			obj.Fields[f.Name()] = z.ZeroOf(f.Type())
+		case *types.Struct:
+			if fn := core.NamedOf(f.Type()); fn != nil && fn.Obj().Pkg() == T.Obj().Pkg() && !fn.Obj().Exported() && depth < 2 {
+				sub := absint.NewTok(obj.ID+"."+f.Name(), "field")
+				zeroState(sub, fn, depth+1)
+				obj.Fields[f.Name()] = sub
+			}
+		}
+	}
+}
+
+// stateGet: the field of that name of the object, or of a state object it holds (two levels).
+func stateGet(obj *absint.Tok, name string) absint.Value {
+	var get func(o *absint.Tok, depth int) (absint.Value, bool)
+	get = func(o *absint.Tok, depth int) (absint.Value, bool) {
+		if v, ok := o.Fields[name]; ok {
+			return v, true
+		}
+		if depth >= 2 {
+			return nil, false
+		}
+		var keys []string
+		for k := range o.Fields {
+			keys = append(keys, k)
+		}
+		sort.Strings(keys)
+		for _, k := range keys {
+			if sub, ok := o.Fields[k].(*absint.Tok); ok && sub != o && (sub.Class == "field" || strings.HasPrefix(sub.ID, "alloc")) {
+				if v, ok := get(sub, depth+1); ok {
+					return v, true
+				}
+			}
+		}
+		return nil, false
+	}
+	v, _ := get(obj, 0)
+	return v
+}
+
+// partOfState: obj is self, or a state object self holds (looked up on demand or made by self's constructor).
+func partOfState(obj, self *absint.Tok) bool {
+	if obj == self {
+		return true
+	}
+	if obj.Class == "field" && strings.HasPrefix(obj.ID, self.ID+".") {
+		return true
+	}
+	for _, v := range self.Fields {
+		if sub, ok := v.(*absint.Tok); ok && sub != self {
+			if sub == obj {
+				return true
+			}
+			for _, w := range sub.Fields {
+				if w == absint.Value(obj) {
+					return true
+				}
+			}
+		}
+	}
+	return false
+}
+
+// transientType: an unexported struct type that nothing long-lived holds - no package-level variable has it, and
+// every struct with a field of it is transient itself: a run context.
+func transientType(c *core.Ctx, T *types.Named, depth int) bool {
+	if T == nil || T.Obj().Exported() || core.StructOf(T) == nil || depth > 3 {
+		return false
+	}
+	key := "transient:" + T.String()
+	if v, ok := c.Memo.Load(key); ok {
+		return v.(bool)
+	}
+	res := true
+	// T and the types defined from it (`type X T`: an X is a T under another method set)
+	same := func(n *types.Named) bool {
+		if n == nil {
+			return false
+		}
+		if n.Origin() == T.Origin() {
+			return true
+		}
+		return n.Obj().Pkg() == T.Obj().Pkg() && n.TypeArgs().Len() == 0 && T.TypeArgs().Len() == 0 && types.Identical(n.Underlying(), T.Underlying())
+	}
+	holds := func(t types.Type) bool {
+		if p, ok := t.Underlying().(*types.Pointer); ok {
+			t = p.Elem()
+		}
+		switch u := t.(type) {
+		case *types.Named:
+			return same(u)
+		}
+		switch u := t.Underlying().(type) {
+		case *types.Slice:
+			return same(core.NamedOf(u.Elem()))
+		case *types.Map:
+			return same(core.NamedOf(u.Elem()))
+		}
+		return false
+	}
+	for _, p := range c.Pkgs {
+		if p.Types == nil || p.Types != T.Obj().Pkg() {
+			continue
+		}
+		sc := p.Types.Scope()
+		for _, name := range sc.Names() {
+			switch o := sc.Lookup(name).(type) {
+			case *types.Var:
+				if holds(o.Type()) {
+					res = false
+				}
+			case *types.TypeName:
+				n, ok := o.Type().(*types.Named)
+				if !ok || n == T {
+					continue
+				}
+				if same(n) && n.Obj().Exported() {
+					res = false // the exported face of the same object
+				}
+				st := core.StructOf(n)
+				if st == nil {
+					continue
+				}
+				for i := 0; i < st.NumFields(); i++ {
+					if holds(st.Field(i).Type()) && !transientType(c, n, depth+1) {
+						res = false
+					}
+				}
+			}
+		}
+	}
+	c.Memo.Store(key, res)
+	return res
+}
+
+// registeredState runs the delegate's own registration method on a fresh delegate for each of the table's processors
+// (with the table's oracle answering what each processor is) and returns that delegate: the state registration leaves
+// behind in fields the tables do not set up themselves - a policy object chosen by what has been registered.  nil if
+// the bootstrap is not located or registration leaves the model.
+func registeredState(c *core.Ctx, t *tbl, procs *absint.List) *absint.Tok {
+	bs, _ := findBootstrap(c)
+	if bs == nil {
+		return nil
+	}
+	dlg := absint.NewTok("registered-delegate", "delegate")
+	zeroState(dlg, bs.recv, 0)
+	ip := absint.New(t)
+	ip.IsLog, ip.InScope = core.IsLogCall, c.InScope
+	ok := true
+	// a capability the table says nothing about is one its processors do not have
+	oldTT, oldTTC := t.typeTest, t.typeTestC
+	isProc := func(v absint.Value) bool {
+		for _, p := range procs.Elems {
+			if p == v {
+				return true
+			}
+		}
+		return false
+	}
+	if oldTTC != nil {
+		t.typeTestC = func(ip2 *absint.Interp, v absint.Value, T types.Type) (bool, bool) {
+			if is, known := oldTTC(ip2, v, T); known || !types.IsInterface(T) || !isProc(v) {
+				return is, known
+			}
+			return false, true
+		}
+	} else {
+		t.typeTest = func(v absint.Value, T types.Type) (bool, bool) {
+			if oldTT != nil {
+				if is, known := oldTT(v, T); known {
+					return is, known
+				}
+			}
+			if types.IsInterface(T) && isProc(v) {
+				return false, true
+			}
+			return false, false
+		}
+	}
+	defer func() { t.typeTest, t.typeTestC = oldTT, oldTTC }()
+	func() {
+		defer func() {
+			if r := recover(); r != nil {
+				if _, isU := r.(*absint.Undecided); isU {
+					ok = false
+					return
+				}
+				panic(r)
+			}
+		}()
+		if ctor := constructorOf(c, bs.recv); ctor != nil {
+			if out := ip.Run(ctor, nil, nil); out.Undecided == nil && out.Panic == nil && len(out.Ret) == 1 {
+				if made, isTok := out.Ret[0].(*absint.Tok); isTok {
+					for k, v := range made.Fields {
+						dlg.Fields[k] = v
+					}
+				}
+			}
+		}
+		for i, p := range procs.Elems {
+			args := []absint.Value{dlg, p}
+			for k := 2; k < len(bs.register.Params); k++ {
+				args = append(args, absint.Str(fmt.Sprintf("name%d", i)))
+			}
+			if out := ip.Run(bs.register, args, nil); out.Undecided != nil || out.Panic != nil {
+				ok = false
+				return
+			}
+		}
+	}()
+	if !ok {
+		return nil
+	}
+	return dlg
+}
+
+// policyField: the value of a field of an internal interface type (a policy object) of the delegate, as registration
+// of the table's processors leaves it; nil when it is not such a field or registration cannot be followed.
+func policyField(c *core.Ctx, t *tbl, procs *absint.List, name string, typ types.Type, cache **absint.Tok, tried *bool) absint.Value {
+	if _, isIface := typ.Underlying().(*types.Interface); !isIface {
+		return nil
+	}
+	n := core.NamedOf(typ)
+	if n == nil || n.Obj().Exported() || n.Obj().Pkg() == nil || !core.InScopePath(n.Obj().Pkg().Path()) {
+		return nil
+	}
+	if !*tried {
+		*tried = true
+		*cache = registeredState(c, t, procs)
+	}
+	if *cache == nil {
+		return nil
+	}
+	if v := stateGet(*cache, name); v != nil {
+		return v
+	}
+	return absint.Nil{} // registration left the field unset
 }
